@@ -4,6 +4,7 @@
 #include <unistd.h>
 #include <errno.h>
 #include <stdint.h>
+#include <time.h>
 #include <sys/syscall.h>
 #include <linux/futex.h>
 #include "kernel.h"
@@ -40,6 +41,7 @@ static int g_current = -1;
 static sim_config cfg;
 static uint64_t rng_state;
 static long g_steps, g_decisions, g_real_choices, g_switches;
+static long g_lock_timeouts;   /* timed lock attempts that the simulator let run into their deadline */
 static long long g_token = 1000;
 static long g_seq;
 static uint64_t g_ilhash = 1469598103934665603ULL;
@@ -110,6 +112,7 @@ void sim_flush(int code) {
     h_puts(" choices="); h_putn(g_real_choices);
     h_puts(" switches="); h_putn(g_switches);
     h_puts(" contended="); h_putn(g_contended);
+    h_puts(" lock_timeouts="); h_putn(g_lock_timeouts);
     h_puts(" ilhash="); h_puthex(g_ilhash);
     h_putc('\n');
     if (cfg.trace_decisions) {
@@ -415,6 +418,41 @@ int __wrap_pthread_mutex_unlock(pthread_mutex_t *m) {
         sim_yield(YK_UNLOCK);
     }
     return r;
+}
+
+/* Timed locks (std::timed_mutex::try_lock_for/until): there is no wall clock in the simulation, so WHETHER the deadline
+ * passes while the caller waits for a contended lock is one more decision of the simulator (fault kind "the lock holder
+ * is stalled for longer than any timeout").  The coin is a pure function of the run's seed and the logical step, so a
+ * replay takes the same decision at the same point. */
+int __real_pthread_mutex_timedlock(pthread_mutex_t *m, const struct timespec *abs);
+int __real_pthread_mutex_clocklock(pthread_mutex_t *m, clockid_t clk, const struct timespec *abs);
+static int timeout_coin(void) {
+    uint64_t z = (uint64_t)cfg.seed ^ (0x9E3779B97F4A7C15ULL * (uint64_t)(g_steps + 1));
+    z = (z ^ (z >> 30)) * 0xBF58476D1CE4E5B9ULL;
+    z = (z ^ (z >> 27)) * 0x94D049BB133111EBULL;
+    return (int)((z ^ (z >> 31)) & 1);
+}
+
+static int timed_acquire(pthread_mutex_t *m) {
+    sim_yield(YK_LOCK);
+    for (;;) {
+        int r = __real_pthread_mutex_trylock(m);
+        if (r == 0) return 0;
+        if (r != EBUSY) return r;
+        g_contended++;
+        if (timeout_coin()) { g_lock_timeouts++; return ETIMEDOUT; }
+        block_on(WK_MUTEX, (long)m, YK_LOCK);
+    }
+}
+
+int __wrap_pthread_mutex_timedlock(pthread_mutex_t *m, const struct timespec *abs) {
+    if (!sim_active()) return __real_pthread_mutex_timedlock(m, abs);
+    return timed_acquire(m);
+}
+
+int __wrap_pthread_mutex_clocklock(pthread_mutex_t *m, clockid_t clk, const struct timespec *abs) {
+    if (!sim_active()) return __real_pthread_mutex_clocklock(m, clk, abs);
+    return timed_acquire(m);
 }
 
 /* std::shared_mutex / std::shared_timed_mutex are header-only wrappers around pthread_rwlock_*: same cooperative scheme,
